@@ -66,6 +66,25 @@ def _arm(f, state):
     f.value = value
 
 
+TEXT = 'Unit #7 ; rear (B) = x: y'
+
+
+class _Adv(object):
+    """base policy whose free-text answers carry comment characters, delimiters and parentheses"""
+
+    def __init__(self, base):
+        self.base = base
+        self.requested = base.requested
+        self.name = base.name
+
+    def answer(self, inp, name=None):
+        from habutax import inputs as hi
+        a = self.base.answer(inp, name=name)
+        if type(inp) is hi.StringInput and a == 'x':
+            return TEXT
+        return a
+
+
 def read_ini(path):
     cp = configparser.ConfigParser()
     with open(path) as fh:
@@ -161,7 +180,7 @@ def session(year, base, start, k, kind, halfset=None):
 
 def _work(arg):
     year, bname, start, k, kind, halfset = arg
-    base = e3.base_by_name(bname, year)
+    base = _Adv(e3.base_by_name(bname, year))
     errs, info = session(year, base, start, k, kind, halfset)
     return errs, info
 
@@ -188,7 +207,7 @@ def run(tier):
         starts = ['none', 'empty', 'half']
     items = []
     for year, bname in sel:
-        base = e3.base_by_name(bname, year)
+        base = _Adv(e3.base_by_name(bname, year))
         P, half = plan(year, base)
         for start in starts:
             p = P - len(half) if start == 'half' else P
@@ -221,7 +240,7 @@ def run(tier):
 
 
 def replay(case):
-    base = e3.base_by_name(case['base'], case['year'])
+    base = _Adv(e3.base_by_name(case['base'], case['year']))
     P, half = plan(case['year'], base)
     errs, info = session(case['year'], base, case['start'], case['k'], case['kind'], half if case['start'] == 'half' else None)
     return (not errs), (str(errs[:1]) if errs else f'passes {info}')
